@@ -1236,24 +1236,14 @@ theorem lognormal_factors_prod (sigma mu x : Rat) : lognormalPdf S sigma mu x = 
 theorem loglaplace_factors_prod (b mu x : Rat) : loglaplacePdf S b mu x = (loglaplaceFactors S b mu x).prod := by
   simp [loglaplacePdf, loglaplaceFactors]
 
-theorem inversegamma_factors_prod [LinearOrder K] [IsStrictOrderedRing K] (hS : S.Sound) (alpha beta x : Rat) :
+theorem inversegamma_factors_prod (alpha beta x : Rat) :
     inversegammaPdf S alpha beta x = (inversegammaFactors S alpha beta x).prod := by
-  simp only [inversegammaPdf, inversegammaFactors, List.prod_cons, List.prod_nil, mul_one]
-  rw [hS.cast (1 / gammaApprox alpha), hS.cast (gammaApprox alpha)]
-  push_cast
-  ring
+  simp [inversegammaPdf, inversegammaFactors, mul_assoc]
 
-theorem beta_factors_prod [LinearOrder K] [IsStrictOrderedRing K] (hS : S.Sound) (alpha beta x : Rat) (ha : 0 < alpha) (hb : 0 < beta) :
+theorem beta_factors_prod [LinearOrder K] [IsStrictOrderedRing K] (hS : S.Sound) (alpha beta x : Rat) :
     betaPdf S alpha beta x = (betaFactors S alpha beta x).prod := by
   simp only [betaPdf, betaFactors, List.prod_cons, List.prod_nil, mul_one]
-  rw [hS.cast (1 / gammaApprox alpha), hS.cast (1 / gammaApprox beta), hS.cast (gammaApprox (alpha + beta)),
-    hS.cast (gammaApprox alpha * gammaApprox beta / gammaApprox (alpha + beta))]
-  have h1 : ((gammaApprox alpha : Rat) : K) ≠ 0 := by exact_mod_cast (gammaApprox_pos alpha ha).ne'
-  have h2 : ((gammaApprox beta : Rat) : K) ≠ 0 := by exact_mod_cast (gammaApprox_pos beta hb).ne'
-  have h3 : ((gammaApprox (alpha + beta) : Rat) : K) ≠ 0 := by
-    exact_mod_cast (gammaApprox_pos (alpha + beta) (by linarith)).ne'
-  push_cast
-  field_simp
+  rw [hS.cast 1, Rat.cast_one, div_eq_mul_inv, one_div, mul_assoc]
 
 end factors
 
